@@ -133,6 +133,23 @@ def main():
             except Exception as ex:
                 ev.append({"e": "Raise", "what": type(ex).__name__ + ": " + str(ex)[:80]})
             traces.append({"tid": f"m{len(traces)}", "hdr": {"t": t, "kind": t["und"] + ":" + t["pay"]}, "ev": ev})
+    # the credit default swap payoff as a function of the default time, with the discounting 2^(-t)
+    ev = []
+    try:
+        from rpylib.product import payoff as PP
+        from harness.encode import quantise
+        rows = []
+        for Tm in (2, 3):
+            for R in (Fraction(0), Fraction(1, 2), Fraction(1), Fraction(1, 4)):
+                for sp in (Fraction(0), Fraction(1), Fraction(1, 4)):
+                    cds = PP.CDS(recovery_rate=float(R), spread=float(sp), maturity=float(Tm), discounting=lambda t: 2.0 ** (-t))
+                    for tau in (0, 1, 2, 3, 4, 6):
+                        v = float(cds.evaluate(float(tau)))
+                        rows.append({"Tm": Tm, "tau": tau, "R": fr(R), "s": fr(sp), "v": quantise(v, 1e-5)})
+        ev.append({"e": "Cds", "rows": rows})
+    except Exception as ex:
+        ev.append({"e": "Raise", "what": type(ex).__name__ + ": " + str(ex)[:80]})
+    traces.append({"tid": f"m{len(traces)}", "hdr": {"t": {}, "kind": "DefaultTime:CDS"}, "ev": ev})
     with open(out, "w") as f:
         for tr in traces:
             f.write(json.dumps(tr, separators=(",", ":")) + "\n")
